@@ -118,6 +118,16 @@ def check(facts, rep, tier, cfg):
                     pr = s["lhs"].get("p") or []
                     if pr and isinstance(pr[-1], dict) and pr[-1].get("o") == BR:
                         writes.add(pr[-1]["f"])
+        # (c) reply itself is idempotent: every emission dominated by the old-value-false edge of swap(true) on own state
+        def once(g):
+            pp = strip(g.pred)
+            if g.kind == "bool" and pp.kind == "call" and pp[6] in ("swap", "fetch_or") and any(
+                    x.kind == "field" and x[3] == BR for x in walk(pp)) and len(pp[3]) > 1 and const_eval(pp[3][1]) == 1:
+                return {False}
+            return None
+        idempotent = all(edge_literals_dominating(facts, rb, rtr, sb, once) for sb in sends)
+        if idempotent:
+            rep.ok("C15.R3", "reply-idempotent", "%s (%s)" % (loc_str(rb.loc), rb.path), "every reply emission is dominated by swap(true) == false on the request's own flag")
         for d in drops:
             rep.analysed(d)
             dtr = Tracer(facts, d)
@@ -132,7 +142,7 @@ def check(facts, rep, tier, cfg):
                                 return {True, False}
                         return None
                     doms = edge_literals_dominating(facts, d, dtr, bi, guarded)
-                    if consumes or doms:
+                    if consumes or doms or idempotent:
                         rep.ok("C15.R3", "single-reply", where, "Drop replies only when no reply was sent")
                     else:
                         rep.bad("C15.R3", "BindRequest/drop-after-reply", where,
